@@ -44,4 +44,15 @@ inductive MissAction where
   | returnNone
 deriving DecidableEq, Repr
 
+/-- the two boolean connectives the n-ary helpers `AND(*ops)` / `OR(*ops)` can build / recurse through -/
+inductive BoolOp where
+  | and | or
+deriving DecidableEq, Repr
+
+/-- the test `Iteration.next` applies to the id column of a fetched row before it returns None for it -/
+inductive IdGuard where
+  | isNone      -- `result[0] is None`   (NULL id: an outer-join artefact)
+  | falsy       -- `not result[0]`       (would also drop id 0 and id '')
+deriving DecidableEq, Repr
+
 end SqlObjVerif.Query
